@@ -385,4 +385,26 @@ def mergeOptions (tu td : Test) (defs : List OptDecl) (user plugin : AList OVal)
   | .error e => .error e
   | .ok opts => .ok (opts, (user.map (·.1)).filter (fun k => !hasKey opts k))
 
+/-! ### where an option is visible: the layers of the formula namespace
+
+`EvaluationNamespace.field_vars` = `{**simple_field_vars(), **field_funcs()}` and `simple_field_vars` is
+one dict literal: built-ins (`id count child_index this today now fake template`), then `**options`,
+`**object_names`, `**obj._values` (the fields of the current row evaluated so far, and its `id`),
+`**plugin_function_libraries`, `**variable_definitions()`.  A later entry overrides an earlier one, so
+the order of the layers — pinned — decides which names may shadow an option. -/
+
+inductive Layer where
+  | builtin | option | objectName | rowField | plugin | variable | func
+  deriving Repr, DecidableEq, Inhabited
+
+/-- farthest first -/
+def layerOrder : List Layer := [.builtin, .option, .objectName, .rowField, .plugin, .variable, .func]
+
+/-- the layer a name resolves to at a read position where layer `L` binds the names `binds L`:
+    the *last* layer of `order` that binds it (Python dict construction: later entries overwrite) -/
+def resolveIn (order : List Layer) (binds : Layer → List String) (name : String) : Option Layer :=
+  order.reverse.find? (fun L => (binds L).contains name)
+
+def resolve (binds : Layer → List String) (name : String) : Option Layer := resolveIn layerOrder binds name
+
 end SnowModel.ParseY
